@@ -127,6 +127,9 @@ def cobalt_expr(case):
 
 def file_hosts(case, key='lines'):
     """node file lines as host names"""
+    if key == 'decoy':
+        # hosts of an earlier job: none of them belongs to this allocation
+        return ['prev%04d' % abs(int(k)) for k in case.get(key) or []]
     names  = names_of(case)
     pseudo = list(case.get('pseudo') or [])
     out = []
@@ -201,11 +204,16 @@ def qstat_output(case):
 class Expect(object):
     """what the model demands.
     verdict : 'ok'     the input is a consistent allocation: no exception, lists as below
-              'raise'  the input is inconsistent / unusable: an exception is required
-              'either' the model does not take sides (outside the canonical domain)
+              'raise'  no acceptable node list exists for this input (or the code
+                       documents the exception): an exception is required
+              'either' the model does not take sides (outside the canonical domain);
+                       only the input-independent clauses are checked
+    may_raise: with 'ok': an exception is acceptable as well (request larger than
+               the allocation), but a list, if produced, must be the right one
     """
     def __init__(self):
         self.verdict   = 'ok'
+        self.may_raise = False
         self.why       = ''
         self.usable    = []      # usable compute hosts (multiset; Fork/Debug repeat localhost)
         self.pseudo    = set()   # names which must never be offered
@@ -253,9 +261,7 @@ def expect(case):                                               # noqa: C901
         if not E:
             return e.set('either', 'fork: no cores')
         if not case.get('fake'):
-            if hw < cores:
-                e.set('raise', 'fork: fewer detected cores than requested')
-            elif not (cores <= E <= hw):
+            if not (cores <= E <= hw):
                 e.set('either', 'fork: cores_per_node vs detected cores')
         req = nodes
         if not req:
@@ -324,7 +330,7 @@ def expect(case):                                               # noqa: C901
         else:
             E = cs.pop() * smt
             if cfg_cpn and cfg_cpn != E:
-                e.set('raise', 'lsf: configured cores contradict host file')
+                e.set('either', 'lsf: configured cores contradict host file')
 
     elif rm == 'COBALT':
         if not cfg_cpn:
@@ -371,10 +377,10 @@ def expect(case):                                               # noqa: C901
     avail_c = E - len(bc)
     avail_g = G - len(bg)
     if avail_c <= 0:
-        e.set('raise', 'all cores blocked')
+        e.set('either', 'all cores blocked')
 
     if not cores:
-        e.set('raise', 'no cores requested')
+        e.set('either', 'no cores requested')
 
     req = nodes
     if not req and avail_c > 0:
@@ -384,10 +390,12 @@ def expect(case):                                               # noqa: C901
         req = int(math.ceil(n))
     e.requested = req
     if not req:
-        e.set('raise', 'no nodes requested')
+        e.set('either', 'no nodes requested')
 
     if req > len(usable):
-        e.set('raise', 'more nodes requested than allocated')
+        # refusing is fine, offering what is there is fine, too
+        e.may_raise = True
+        e.klass.append('request_exceeds_allocation')
 
     ok = list(usable)
     if backup:
